@@ -1,0 +1,26 @@
+//go:build verif
+
+package swarm
+
+import "sync/atomic"
+
+// Schedule points for the verification harness (build tag verif only): the harness can
+// make a goroutine give way at a few publication points so that operations racing at the
+// same instant are explored in both orders, not only in the order the scheduler prefers.
+
+var verifYieldFn atomic.Pointer[func(point string)]
+
+// VerifSetYield installs f (nil removes it). f runs on the goroutine that reached the point.
+func VerifSetYield(f func(point string)) {
+	if f == nil {
+		verifYieldFn.Store(nil)
+		return
+	}
+	verifYieldFn.Store(&f)
+}
+
+func verifYield(point string) {
+	if f := verifYieldFn.Load(); f != nil {
+		(*f)(point)
+	}
+}
